@@ -74,7 +74,13 @@ def imp(kind, fp):
 def _edges(s):
     if hasattr(s, "trilist"):  # a mesh is written with the undirected edges of its triangles
         return sorted({tuple(sorted((int(t[i]), int(t[(i + 1) % 3])))) for t in s.trilist for i in range(3)})
-    return sorted(tuple(sorted(int(v) for v in e)) for e in np.asarray(s.edges).reshape(-1, 2).tolist()) if hasattr(s, "edges") else []
+    if not hasattr(s, "adjacency_matrix"):
+        return []
+    # read off the adjacency matrix itself (not through the library's own edge listing): every pair joined in either direction,
+    # self loops included
+    A = s.adjacency_matrix
+    A = np.asarray(A.todense()) if hasattr(A, "todense") else np.asarray(A)
+    return sorted({tuple(sorted((int(i), int(j)))) for i, j in zip(*np.nonzero(A))})
 
 
 def canon_equal(kind, exported, imported):
